@@ -184,7 +184,7 @@ theorem optArgsOf_noCall (ρ : String → Option Word) (es : List X.Expr) (hp : 
   exact pure_noCall ρ e (hp e he)
 
 theorem Rep.setIo {K : PCtx} {σ : X.St} {mem : Mem} (h : Rep K σ mem) (io : Isa.IOSt) : Rep K { σ with io := io } mem :=
-  ⟨h.sp, h.vals, fun n w hn hr => h.vars n w hn hr, h.consts, h.locs, h.link⟩
+  ⟨h.sp, h.vals, fun n w hn hr => h.vars n w hn hr, h.consts, h.locs, h.above, h.gvis, h.depth⟩
 
 theorem sysId_small (id : Nat) (h : id < 3) : sysIdOfNat id = (id : Int) := by
   unfold sysIdOfNat
